@@ -30,7 +30,7 @@ if [ "$TIER" = thorough ] && [ $# -eq 0 ]; then
   # deterministic replay path inside fuzz.sh; results are folded into the evidence by the check binary)
   SEED="${VERIF_SEED:-1}"
   case "$ID" in
-    C02|C03|C06|C16) /verif/fuzz.sh fz_text 150000 "$SEED" 8 768; /verif/fuzz.sh fz_tokens 150000 "$SEED" 8 512 ;;
+    C02|C03|C06|C16) /verif/fuzz.sh fz_text 150000 "$SEED" 8 768; /verif/fuzz.sh fz_tokens 60000 "$SEED" 8 512 ;;
     C05|C11|C13) /verif/fuzz.sh fz_machine 60000 "$SEED" 8 512 ;;
     C17) /verif/fuzz.sh fz_tui 1200 "$SEED" 8 512 ;;
   esac
